@@ -454,6 +454,8 @@ def run(ctx):
         'wrong field counts are rejected',
         'only builtin-typed targets',
         'retry loop re-prompts and exits only after success',
+        'the prompt text does not steer the emitted code (emission '
+        'interpreter, relational)',
     ]
     ctx.not_decided = ['which texts count as well-formed numbers '
                        '(int()/float() acceptance)']
@@ -466,6 +468,8 @@ def run(ctx):
     range_constants(ctx)
     builtin_targets(ctx)
     retry_loop(ctx)
+    from .. import gensim
+    gensim.check_input_prompt(ctx, 'C18')
     return ('Emitter/consumer protocol agreement between gen_input and '
             'TerminalDevice._exec_input (push and pop sequences extracted '
             'from the source), CFG typestate rule on push_vars (no push '
